@@ -67,6 +67,10 @@ def c11_build(seed, tier):
     base = [g.term(names, 1, 3) for _ in range(r.randint(0, 3))]
     lo = float(r.randint(-5, 5))
     base += g.bounds(v, lo, lo + margin)
+    if r.random() < 0.15:
+        # constraints without variables (0 <= c), a failing one before a holding one included
+        for c in r.choice([[1.0], [-1.0], [-1.0, 2.0], [2.0, -1.0]]):
+            base.insert(r.randrange(len(base) + 1), g.PT({}, c))
     return {"op": "empty", "terms": tl_data(base), "margin": margin}
 
 
